@@ -850,6 +850,8 @@ type badgerBatch struct {
 
 	// rootExisted is true iff Commit found the root already stored and wrote nothing.
 	rootExisted bool
+	// committed is true iff Commit succeeded.
+	committed bool
 
 	mpLock *sync.Mutex
 }
@@ -996,6 +998,7 @@ func (ba *badgerBatch) Commit(root node.Root) error {
 				ba.Reset()
 				return nil
 			}
+			ba.committed = true
 			ba.Reset()
 			return ba.BaseBatch.Commit(root)
 		}
@@ -1060,6 +1063,7 @@ func (ba *badgerBatch) Commit(root node.Root) error {
 	}
 	api.VerifCrashPoint("pathbadger.commit.post-bat")
 
+	ba.committed = true
 	ba.Reset()
 	return ba.BaseBatch.Commit(root)
 }
@@ -1068,6 +1072,15 @@ func (ba *badgerBatch) Commit(root node.Root) error {
 func (ba *badgerBatch) Reset() {
 	ba.bat.Cancel()
 	ba.batMeta.Cancel()
+
+	// If the batch is abandoned without having been committed (e.g. because committing failed),
+	// nothing has been written, so the database locations it assigned to the caller's in-memory
+	// nodes must not survive it: the caller's next batch assigns its own.
+	if !ba.committed {
+		for i := len(ba.assignedPtrs) - 1; i >= 0; i-- {
+			ba.assignedPtrs[i].ptr.DBInternal = ba.assignedPtrs[i].old
+		}
+	}
 
 	if ba.readTxn != nil {
 		ba.readTxn.Discard()
